@@ -176,7 +176,7 @@ Definition Arctanh_bwd_0 (g a : R) : R := (g / (1 - (a ^ 2))).
 
 (* Arccsch  (math/hyperbolic_trig/ops.py) *)
 Definition Arccsch_fwd (a : R) : R := (arcsinh (1 / a)).
-Definition Arccsch_bwd_0 (g a : R) : R := ((- g) / (a * (sqrt (1 + (a ^ 2))))).
+Definition Arccsch_bwd_0 (g a : R) : R := ((- g) / ((Rabs a) * (sqrt (1 + (a ^ 2))))).
 
 (* Arccoth  (math/hyperbolic_trig/ops.py) *)
 Definition Arccoth_fwd (a : R) : R := (np_arctanh (1 / a)).
